@@ -48,8 +48,15 @@ func Parse(raw *Raw) ([]*Converter, error) {
 
 	ctx := &context{Loader: loader, EnumTransformers: raw.EnumTransformers, WorkDir: raw.WorkDir}
 
+	// parse in an order that does not depend on the order of the package patterns, so that
+	// the reported error is the same when several converters are faulty
+	rawConverters := append([]RawConverter{}, raw.Converters...)
+	sort.SliceStable(rawConverters, func(i, j int) bool {
+		return rawConverters[i].PackagePath < rawConverters[j].PackagePath
+	})
+
 	converters := []*Converter{}
-	for _, rawConverter := range raw.Converters {
+	for _, rawConverter := range rawConverters {
 		converter, err := parseConverter(ctx, &rawConverter, raw.Global)
 		if err != nil {
 			return nil, err
